@@ -10,6 +10,14 @@ VERIF = os.path.dirname(os.path.dirname(os.path.abspath(__file__)))
 REPO = os.environ.get('PURL_REPO', '/repo')
 CRATE = os.path.join(VERIF, 'kani')
 TARGET = os.path.join(VERIF, '.build', 'kani')
+if REPO != '/repo' and os.environ.get('VERIF_ISOLATE'):
+    # tools/seedrun.py, tools/refrun.py: several scratch trees checked at the same time -- the harness crate and its build
+    # output live inside the scratch tree and disappear with it
+    _src = CRATE
+    CRATE = os.path.join(REPO, '.verif-build', 'kani')
+    TARGET = os.path.join(REPO, '.verif-build', 'target-kani')
+    if not os.path.isdir(CRATE):
+        shutil.copytree(_src, CRATE, ignore=shutil.ignore_patterns('Cargo.toml', 'Cargo.lock', 'target'))
 
 
 def run(harnesses, tier):
@@ -28,8 +36,10 @@ def run(harnesses, tier):
     except OSError:
         old = None
     if old != toml:
-        with open(os.path.join(CRATE, 'Cargo.toml'), 'w') as f:
+        tmp = os.path.join(CRATE, '.Cargo.toml.%d' % os.getpid())
+        with open(tmp, 'w') as f:
             f.write(toml)
+        os.replace(tmp, os.path.join(CRATE, 'Cargo.toml'))
     cmd = ['cargo', 'kani', '--target-dir', TARGET, '--output-format', 'terse']
     for h in harnesses:
         cmd += ['--harness', h]
